@@ -34,6 +34,35 @@ const lateComp = 13
 
 var gcLate = generic.T[gc13]()
 
+// gs13 is the Map adapter of the late type (the generated adapters cover the types declared up front).
+type gs13 struct{ m generic.Map[gc13] }
+
+func (a *gs13) Get(e ecs.Entity) unsafe.Pointer { return unsafe.Pointer(a.m.Get(e)) }
+func (a *gs13) Has(e ecs.Entity) bool           { return a.m.Has(e) }
+func (a *gs13) Set(e ecs.Entity, v int) unsafe.Pointer {
+	return unsafe.Pointer(a.m.Set(e, &gc13{V: int64(v)}))
+}
+func (a *gs13) GetRelation(e ecs.Entity) ecs.Entity             { return a.m.GetRelation(e) }
+func (a *gs13) SetRelation(e, t ecs.Entity)                     { a.m.SetRelation(e, t) }
+func (a *gs13) SetRelationBatch(f ecs.Filter, t ecs.Entity) int { return a.m.SetRelationBatch(f, t) }
+func (a *gs13) SetRelationBatchQ(f ecs.Filter, t ecs.Entity) gquery {
+	q := a.m.SetRelationBatchQ(f, t)
+	return &gsq13{q}
+}
+
+type gsq13 struct{ q generic.Query1[gc13] }
+
+func (a *gsq13) Q() *ecs.Query          { return &a.q.Query }
+func (a *gsq13) Relation() ecs.Entity   { return a.q.Relation() }
+func (a *gsq13) Ptrs() []unsafe.Pointer { return []unsafe.Pointer{unsafe.Pointer(a.q.Get())} }
+
+func (x *World) gsingle(i int) gsingle {
+	if i == lateComp && x.lateDone {
+		return &gs13{generic.NewMap[gc13](x.w)}
+	}
+	return newGSingle(i, x.w)
+}
+
 func (x *World) gcomps(nums []int) []generic.Comp {
 	r := make([]generic.Comp, len(nums))
 	for i, n := range nums {
@@ -288,7 +317,7 @@ func (x *World) execGeneric(op Op, line map[string]interface{}, args map[string]
 		args["c"] = op.C
 		args["v"] = op.V
 		res = guard(func(r *result) {
-			p := newGSingle(op.C, w).Set(e, op.V)
+			p := x.gsingle(op.C).Set(e, op.V)
 			if !w.Alive(e) {
 				return // accepted for a stale handle: the line records "no panic", the specification objects
 			}
@@ -300,7 +329,7 @@ func (x *World) execGeneric(op Op, line map[string]interface{}, args map[string]
 		args["e"] = ent(e)
 		args["rel"] = op.Rel
 		args["tgt"] = ent(tgt)
-		res = guard(func(r *result) { newGSingle(op.Rel, w).SetRelation(e, tgt) })
+		res = guard(func(r *result) { x.gsingle(op.Rel).SetRelation(e, tgt) })
 	case "Read":
 		args["e"] = ent(e)
 		args["c"] = op.C
@@ -320,11 +349,11 @@ func (x *World) execGeneric(op Op, line map[string]interface{}, args map[string]
 				}
 				line["getpos"] = getpos(ptrs, func(i int) unsafe.Pointer { return w.Get(e, x.idOf(i)) })
 			case "generic.Map1.Has":
-				r.ret = b2i(newGSingle(op.C, w).Has(e))
+				r.ret = b2i(x.gsingle(op.C).Has(e))
 			case "generic.Map1.GetRelation":
-				r.handles = append(r.handles, ent(newGSingle(op.C, w).GetRelation(e)))
+				r.handles = append(r.handles, ent(x.gsingle(op.C).GetRelation(e)))
 			default:
-				r.ret = b2i(newGSingle(op.C, w).Get(e) != nil)
+				r.ret = b2i(x.gsingle(op.C).Get(e) != nil)
 			}
 		})
 	case "BatchExchange":
@@ -367,7 +396,7 @@ func (x *World) execGeneric(op Op, line map[string]interface{}, args map[string]
 		args["q"] = op.Q
 		args["hold"] = op.Hold
 		res = guard(func(r *result) {
-			s := newGSingle(op.Rel, w)
+			s := x.gsingle(op.Rel)
 			if op.Q {
 				o2 := op
 				o2.Ar = 1
